@@ -511,6 +511,15 @@ func runC10(c *Ctx) {
 		ph := c10GenPhase(r, nmsg)
 		tag := fmt.Sprintf("c10p%d", pi)
 		ref, err := c10Reference(c, ph, tag)
+		if err == ErrBlocked {
+			// a server that stops consuming CPU and never answers while the very same messages are sent one at a time: if it
+			// does so again on a second replay it is a deadlock (a lock that is never released), not a scheduling accident
+			if _, err2 := c10Reference(c, ph, tag+"again"); err2 == ErrBlocked {
+				c.Report("deadlock|sequential-replay", "the server stops answering (no CPU progress, process alive) when the messages of this phase are sent one at a time; reproduced on a second replay",
+					map[string]interface{}{"phase": ph})
+				return
+			}
+		}
 		if err != nil {
 			c.Inconclusive("sequential reference replay failed: " + err.Error())
 			return
